@@ -178,6 +178,23 @@ def run(ctx):
               "matching treats =* as a raw string prefix (=1* matches 10) but the glob-vs-range arm only tests whether the range endpoint starts with the glob: "
               "=cat/pkg-1* and >cat/pkg-2 are reported disjoint although cat/pkg-10 matches both", node=glob_ranged[0])
 
+    # a glob that carries a revision (=1-r1*) still matches greater versions (1-r10): the "pinned, nothing else matches"
+    # shortcut may only serve upper-bounded ranges
+    pins = [n for n in ast.walk(glob_ranged[0]) if isinstance(n, ast.If) and isinstance(n.test, ast.Attribute) and n.test.attr == "revision"
+            and isinstance(n.test.value, ast.Name) and n.test.value.id == b and first_is(n.body, "return False")]
+    for pin in pins:
+        under_lt = False
+        child, par = pin, getattr(pin, "_parent", None)
+        while par is not None and par is not glob_ranged[0]:
+            if isinstance(par, ast.If) and child in par.body and any(isinstance(c, ast.Constant) and c.value == "<" for c in ast.walk(par.test)) \
+                    and not any(isinstance(c, ast.Constant) and c.value == ">" for c in ast.walk(par.test)):
+                under_lt = True
+            child, par = par, getattr(par, "_parent", None)
+        ctx.check("R3", f, under_lt, "glob-revision-pin-direction",
+                  "the `glob has a revision -> nothing smaller matches` shortcut is confined to upper-bounded ('<', '<=') ranges",
+                  f"`if {b}.revision: return False` in the glob-vs-range arm also serves '>' / '>=' ranges: =cat/pkg-1-r1* and >cat/pkg-1-r5 share "
+                  f"cat/pkg-1-r10 (a raw prefix match) but are reported disjoint", node=pin)
+
     # tilde-vs-range arm: the fallback must serve both lower-bounded operators
     tilde_test = canon(expr(f"{b}.op == '~'"))
     tilde = [s for s in post if isinstance(s, ast.If) and canon(s.test) == tilde_test]
@@ -234,6 +251,33 @@ def run(ctx):
         ok = any(isinstance(s, ast.If) and canon(s.test) == conflict and first_is(s.body, "return False") for s in effective(loop[0].body))
     ctx.check("R5", f, ok, "conflict-is-same-token-both-signs", "a conflict is the same token demanded with and without '-'")
     ctx.floor("R5", 2)
+
+    # ---- R6 no verdict other than "disjoint" before every non-version constraint was reconciled ---------------------
+    from ..core.cfg import cfg_of
+    g = cfg_of(f.node)
+    dom = g.dominators()
+    guards = {}
+    for attr in ("key", "slot", "subslot", "repo_id", "use"):
+        for st in A.body_walk(f.node):
+            if isinstance(st, ast.If):
+                who = {n.value.id for n in ast.walk(st.test) if isinstance(n, ast.Attribute) and n.attr == attr and isinstance(n.value, ast.Name)}
+                if {a, b} <= who and any(isinstance(r, ast.Return) and isinstance(r.value, ast.Constant) and r.value.value is False for x in st.body for r in ast.walk(x)):
+                    guards[attr] = st
+                    break
+    ctx.require(set(guards) == {"key", "slot", "subslot", "repo_id", "use"}, f"atom.intersects: conflict checks found only for {sorted(guards)}")
+    n_ret = 0
+    for r in A.returns(f.node):
+        if isinstance(r.value, ast.Constant) and r.value.value is False:
+            continue
+        n_ret += 1
+        rn = g.node_of(r)
+        missing = [attr for attr, st in guards.items() if g.node_of(st) not in dom.get(rn, ())]
+        ctx.check("R6", f, not missing, "verdict-before-conflict-check:" + ",".join(missing),
+                  f"`{A.unparse(r)[:50]}` is reached only after the key / slot / sub-slot / repository / USE conflict checks",
+                  f"`{A.unparse(r)[:60]}` (line {r.lineno}) can be reached without passing the {', '.join(missing)} conflict check: two atoms that "
+                  f"contradict each other there are reported as intersecting although no package matches both", node=r)
+    ctx.require(n_ret >= 10, f"atom.intersects: only {n_ret} deciding returns")
+    ctx.floor("R6", 10)
 
 MUTANTS = [
     {"name": "glob-exact-asymmetric", "file": "src/pkgcore/ebuild/atom.py", "old": "                return other.fullver.startswith(self.fullver)\n            return restricts.VersionMatch(self.op", "new": "                return other.fullver.startswith(self.version)\n            return restricts.VersionMatch(self.op", "rule": "R1"},
